@@ -1,7 +1,7 @@
 """C08 — transforms compose, invert and convert to matrices consistently."""
 import algebra as A
 from algebra import El, ZERO, ONE
-from core import (check_option_inverse, Harness, sv, sm, sq, ss, Run, Conv, run_specs, report_dropped, ret_leaves, cmp_struct, single_ret, parse_guard, is_zero_test, flat, path_hyps)
+from core import (check_option_inverse, eq_tests, Harness, sv, sm, sq, ss, Run, Conv, run_specs, report_dropped, ret_leaves, cmp_struct, single_ret, parse_guard, is_zero_test, flat, path_hyps)
 import facts
 import specs
 
@@ -133,6 +133,14 @@ def check_inverse(run, S, name, spec, kw):
         gs = [(parse_guard(S, cv, tid), want) for k_, tid, want in guards]
         zero_g = [(g_, w) for g_, w in gs if is_zero_test(g_, s)]
         det_g = [(g_, w) for g_, w in gs if det is not None and g_['kind'] == 'eq' and (A.eq(g_['a'] - g_['b'], det) or A.eq(g_['a'] - g_['b'], -det))]
+        # the same test written as a match on partial_cmp
+        for k_, tid, want in guards:
+            if k_ == 'switch' and det is not None:
+                for d_, truth_, text_ in eq_tests(S, cv, k_, tid, want):
+                    if A.eq(d_, det) or A.eq(d_, -det):
+                        g2 = {'kind': 'eq', 'neg': False, 'text': text_, 'a': d_, 'b': ZERO}
+                        det_g.append((g2, truth_))
+                        gs = [(g_, w) for g_, w in gs if g_.get('text') != S.show(tid)]
         others = [g_ for g_, w in gs if not any(g_ is z for z, _ in zero_g) and not any(g_ is z for z, _ in det_g)]
         # any further guard is a special-case split inside the rotation / vector code: it cannot excuse a wrong
         # None/Some classification (that is decided on the scale test alone, below), and the leaf's value is compared
